@@ -23,6 +23,7 @@ RULE = (
     "planes {0,1,30,31} for the other three; thorough = complete lattice x shapes for all four hashes; random root key / SD / L0 in "
     "{0,361,2^31-1,random} per shard. distinct by construction (enumeration); non-trivial = every point except the four (start -> (0,0)) "
     "derivations of tests/test_gkdi.py::test_compute_l2_key"
+    " Also: the same derivations from 8 threads at once (threads-* shards), API-level derivations through DC-seeded caches incl. adjacent positions."
 )
 ASSUMPTIONS = [
     "ref.crypto.Chain transcribes MS-GKDI 3.1.4.1.2 (calibrated: the reference decrypts the 16 Windows blobs from the root key alone)",
